@@ -1,6 +1,8 @@
 import PyElf.Driver.Json
 import PyElf.Spec.DwarfLookup
+import PyElf.Spec.DwarfNameOrder
 import PyElf.Model.DwarfLookup
+import PyElf.Model.DwarfLookupInfo
 import PyElf.Model.Env
 open Lean
 namespace PyElf.Driver.C13
@@ -115,6 +117,63 @@ def expectOp (le : Bool) (us : List InfoUnit) (total : Nat) : Op → Json
       if ob.dieOff ≤ d ∧ d < o + ob.size then Json.mkObj [("ok", Json.arr #[obsJson ob, jN d])] else Json.null
     | none => Json.null
 
+/-! ### address → range table → unit, with absent sections (kind `res`) -/
+
+/-- one operation on a `DWARFInfo` whose `.debug_info` may be absent -/
+def stepOpI (P : Bytes → Nat → R CU) (info : Option Bytes) (st : CUCache) : Op → Json × CUCache
+  | .containing x =>
+    let (r, st') := getCUContainingI P info st x
+    (resJson cuJson r, st')
+  | .at_ x =>
+    let (r, st') := getCUAtI P info st x
+    (resJson cuJson r, st')
+  | .lut c d =>
+    match info with
+    | none => (resJson (fun (_ : Unit) => Json.null) (.error .dwarfError), st)
+    | some data =>
+      let (r, st') := getDIEFromLutEntry (P data) data.length st c d
+      (resJson (fun (cu, o) => Json.arr #[cuJson cu, jN o]) r, st')
+
+def runOpsI (P : Bytes → Nat → R CU) (info : Option Bytes) : List Op → CUCache → List Json → List Json × CUCache
+  | [], st, acc => (acc.reverse, st)
+  | op :: ops, st, acc =>
+    let (j, st') := stepOpI P info st op
+    runOpsI P info ops st' (j :: acc)
+
+def runQueries (t : Option ARanges) (P : Bytes → Nat → R CU) (info : Option Bytes) :
+    List (Nat × Bool) → CUCache → List Json → List Json × CUCache
+  | [], st, acc => (acc.reverse, st)
+  | (a, byC) :: qs, st, acc =>
+    let (r, st') := unitForAddr byC t P info st a
+    let j := resJson (fun (o : Option CU) => match o with | some cu => cuJson cu | none => Json.null) r
+    runQueries t P info qs st' (j :: acc)
+
+/-- `get_aranges()`, then the address queries, then the unit operations, on ONE DWARFInfo -/
+def runRes (S0 : DwarfStructs) (le : Bool) (ar info : Option Bytes) (qs : List (Nat × Bool)) (ops : List Op) : Json :=
+  let P := fun data => parseCUAtOffset Model.genEnumDecode Model.dwarfStructsFor S0 le data
+  match getAranges (Model.dwarfEnv S0) S0 ar with
+  | .error e => Json.mkObj [("aranges", Json.mkObj [("err", Json.str e.name)])]
+  | .ok t =>
+    let tj : Json := match t with
+      | none => Json.null
+      | some t => Json.arr (t.entries.map entryJson).toArray
+    let (rs, st) := runQueries t P info qs CUCache.empty []
+    let (as, st) := runOpsI P info ops st []
+    Json.mkObj [("aranges", Json.mkObj [("ok", tj)]), ("resolved", Json.arr rs.toArray), ("answers", Json.arr as.toArray),
+                ("offsets", Json.arr (st.offsets.map jN).toArray)]
+
+/-- what the property prescribes for resolving an address: nothing when no encoded range contains it (or there is
+    no table); otherwise the unit the offset of the containing range leads to — `null` (not compared) when that offset is
+    outside what the property quantifies over (not a unit start for `get_CU_at`, outside the section for
+    `get_CU_containing`) -/
+def expectQuery (le : Bool) (es : Option (List AREntry)) (us : List InfoUnit) (total : Nat) (q : Nat × Bool) : Json :=
+  match es with
+  | none => Json.mkObj [("ok", Json.null)]
+  | some es =>
+    match cuOffsetAt es q.1 with
+    | none => Json.mkObj [("ok", Json.null)]
+    | some o => expectOp le us total (if q.2 then .containing o else .at_ o)
+
 def handle (req : Json) : Except String Json := do
   let k ← jStr req "k"
   let le ← jBool req "le"
@@ -147,11 +206,17 @@ def handle (req : Json) : Except String Json := do
     let distinct := decide ((pairs.map (·.1)).Nodup)
     return Json.mkObj [
       ("bytes", jHexOf data), ("wf", Json.bool (sets.all (wfNameSet le))), ("distinct", Json.bool distinct),
-      ("expect", namesJson (mappingOf pairs, sets.map (nameHdrVal le))),
+      -- the declarative content (Spec/DwarfNameOrder.lean): distinct names in order of first occurrence, each with
+      -- the value of its last occurrence; `Props.C13.names_exact_ordered`
+      ("expect", namesJson (orderedLastWins pairs, sets.map (nameHdrVal le))),
       ("model", resJson namesJson (nameGetEntries (Model.dwarfEnv S) S 32 data data.length))]
   | "nm_raw" =>
-    let data ← jHex req "hex"
-    return Json.mkObj [("model", resJson namesJson (nameGetEntries (Model.dwarfEnv S) S 32 data data.length))]
+    -- "hex": null = the section is absent: get_pubnames() / get_pubtypes() answer None
+    let sec : Option Bytes ← match (req.getObjVal? "hex").toOption.getD Json.null with
+      | .null => pure none
+      | _ => do pure (some (← jHex req "hex"))
+    let optJson : Option (NameDict × List Val) → Json := fun o => match o with | some r => namesJson r | none => Json.null
+    return Json.mkObj [("model", resJson optJson (getNameLUT (Model.dwarfEnv S) S sec))]
   | "cu" =>
     let us ← (← jArr req "units").mapM parseUnit
     let ops ← (← jArr req "ops").mapM parseOp
@@ -166,6 +231,48 @@ def handle (req : Json) : Except String Json := do
     let data ← jHex req "hex"
     let ops ← (← jArr req "ops").mapM parseOp
     return Json.mkObj [("model", runCU S le data ops)]
+  | "res" =>
+    -- "sets": null = no .debug_aranges section; "units": null = no .debug_info section
+    let setsJ := (req.getObjVal? "sets").toOption.getD Json.null
+    let unitsJ := (req.getObjVal? "units").toOption.getD Json.null
+    let sets : Option (List ARSet) ← match setsJ with
+      | .arr a => do pure (some (← a.toList.mapM parseSet))
+      | _ => pure none
+    let us : Option (List InfoUnit) ← match unitsJ with
+      | .arr a => do pure (some (← a.toList.mapM parseUnit))
+      | _ => pure none
+    let qs ← (← jArr req "queries").mapM fun q =>
+      match q with
+      | .arr #[a, .bool b] => do return ((← jNatOf a), b)
+      | _ => throw "bad query"
+    let ops ← (← jArr req "ops").mapM parseOp
+    let ar := sets.map (encSets le 0)
+    let info := us.map (encUnits le)
+    let es := sets.map (entriesOf le 0)
+    let total := (info.map (·.length)).getD 0
+    let usL := us.getD []
+    -- the hypotheses of Props.C13.addr_to_unit that can fail for a generated case
+    let wfAr := match sets with | some ss => wfSets le 0 ss && decide ((entriesOf le 0 ss).Pairwise noShadow) | none => true
+    let wfInfo := us.isSome && usL.all (wfUnit le)
+    -- `get_CU_at(o)` parses at `o` without validation and caches the result: called with an offset at which no unit
+    -- starts it poisons the unit cache for all later lookups (by design, DESIGN.md §6 C10; outside the property and outside
+    -- `hstarts` of `addr_to_unit`).  Such a history is compared with the model only.
+    let poisoned := qs.any fun q =>
+      !q.2 && (match es with
+               | some es => (match cuOffsetAt es q.1 with
+                             | some o => (unitAt le usL o).isNone
+                             | none => false)
+               | none => false)
+    return Json.mkObj [
+      ("ar_bytes", match ar with | some b => jHexOf b | none => Json.null),
+      ("info_bytes", match info with | some b => jHexOf b | none => Json.null),
+      ("wf", Json.bool (wfAr && wfInfo)), ("poisoned", Json.bool poisoned),
+      ("starts", Json.arr ((unitStarts le 0 usL).map fun p => Json.arr #[jN p.1, jN (unitSize le p.2),
+          jN (unitObs le p.1 p.2).dieOff]).toArray),
+      ("table_entries", match es with | some es => Json.arr ((sortByBegin es).map entryJson).toArray | none => Json.null),
+      ("expect_resolved", Json.arr (qs.map (expectQuery le es usL total)).toArray),
+      ("expect_answers", Json.arr (ops.map (expectOp le usL total)).toArray),
+      ("model", runRes S le ar info qs ops)]
   | _ => throw s!"C13: unknown kind {k}"
 
 end PyElf.Driver.C13
